@@ -37,14 +37,14 @@ fn run_pair(id: &str, p: &PExpr, q: &PExpr) {
     println!("{}\t(pair {} {})\t{}", id, p.to_sexp(), q.to_sexp(), out);
 }
 
-pub fn program(p: &PExpr, q: &PExpr) -> Option<String> {
-    Some(format!("g(x: {{I: Int | {}}}): {{I: Int | {}}} = x\n", q.to_erg()?, p.to_erg()?))
+pub fn program(p: &PExpr, q: &PExpr, not_fn: bool) -> Option<String> {
+    Some(format!("g(x: {{I: Int | {}}}): {{I: Int | {}}} = x\n", q.to_erg(not_fn)?, p.to_erg(not_fn)?))
 }
 
 /// `x: {I: Int | P} = c` — the literal's singleton type against the ascribed refinement
-pub fn program_lit(p: &PExpr, q: &PExpr) -> Option<String> {
+pub fn program_lit(p: &PExpr, q: &PExpr, not_fn: bool) -> Option<String> {
     match q {
-        PExpr::Eq(c) => Some(format!("x: {{I: Int | {}}} = {}\n", p.to_erg()?, c)),
+        PExpr::Eq(c) => Some(format!("x: {{I: Int | {}}} = {}\n", p.to_erg(not_fn)?, c)),
         _ => None,
     }
 }
@@ -68,8 +68,9 @@ fn front_end(src: &str) -> Result<String, String> {
     .map_err(|m| format!("crash({})", quote(&m)))
 }
 
-fn run_e2e(id: &str, p: &PExpr, q: &PExpr, lit: bool) {
-    let out = match if lit { program_lit(p, q) } else { program(p, q) } {
+/// kinds: `e2e`/`e2elit` spell negation `~(p)`, `e2en`/`e2elitn` spell it `not (p)` (a `Call` predicate)
+fn run_e2e(id: &str, p: &PExpr, q: &PExpr, lit: bool, not_fn: bool) {
+    let out = match if lit { program_lit(p, q, not_fn) } else { program(p, q, not_fn) } {
         None => "out-of-model(no-surface-syntax)".to_string(),
         Some(src) => {
             let fe = match front_end(&src) {
@@ -83,7 +84,13 @@ fn run_e2e(id: &str, p: &PExpr, q: &PExpr, lit: bool) {
             format!("(e2e {}) (hook {})", fe, hk)
         }
     };
-    println!("{}\t({} {} {})\t{}", id, if lit { "e2elit" } else { "e2e" }, p.to_sexp(), q.to_sexp(), out);
+    let kind = match (lit, not_fn) {
+        (false, false) => "e2e",
+        (true, false) => "e2elit",
+        (false, true) => "e2en",
+        (true, true) => "e2elitn",
+    };
+    println!("{}\t({} {} {})\t{}", id, kind, p.to_sexp(), q.to_sexp(), out);
 }
 
 // ------------------------------------------------------------------------------------------------ generators
@@ -261,9 +268,11 @@ fn main() {
                 if i % 4 == 1 {
                     // literal ascription: the supplied predicate is the singleton of a constant near the constants of P
                     let c = if wide_const(i) { *rng2.pick(&WIDE) } else { rng2.range(-4, 13) as i128 };
-                    run_e2e(&format!("e{}", i), &p, &PExpr::Eq(c), true);
+                    let not_fn = p.has_not() && rng2.chance(1, 2);
+                    run_e2e(&format!("e{}", i), &p, &PExpr::Eq(c), true, not_fn);
                 } else {
-                    run_e2e(&format!("e{}", i), &p, &q, false);
+                    let not_fn = (p.has_not() || q.has_not()) && rng2.chance(1, 2);
+                    run_e2e(&format!("e{}", i), &p, &q, false, not_fn);
                 }
             }
         }
@@ -276,6 +285,10 @@ fn main() {
                     ("e2e", b)
                 } else if let Some(b) = t.strip_prefix("(e2elit ") {
                     ("e2elit", b)
+                } else if let Some(b) = t.strip_prefix("(e2en ") {
+                    ("e2en", b)
+                } else if let Some(b) = t.strip_prefix("(e2elitn ") {
+                    ("e2elitn", b)
                 } else {
                     println!("{}\t{}\tbad-input", id, input);
                     continue;
@@ -283,7 +296,7 @@ fn main() {
                 let body = body.strip_suffix(")").unwrap_or(body);
                 match parse_many(body) {
                     Some(v) if v.len() == 2 => {
-                        if kind == "pair" { run_pair(&id, &v[0], &v[1]) } else { run_e2e(&id, &v[0], &v[1], kind == "e2elit") }
+                        if kind == "pair" { run_pair(&id, &v[0], &v[1]) } else { run_e2e(&id, &v[0], &v[1], kind.starts_with("e2elit"), kind.ends_with('n')) }
                     }
                     _ => println!("{}\t{}\tbad-input", id, input),
                 }
